@@ -128,11 +128,13 @@ ADDENDA = {
  'C01': ('Value tables addressed by entry number are compared with the specification as well (R01.5).', ''),
  'C02': ('The window pcm_returned <= pcm_current is decided as an invariant of every decode-side writer by a relational '
          'pair-invariant analysis (affine upper bounds in the two fields, half-rate shift made concrete), whatever the form of '
-         'the clamps; helper functions an unpacker was split into are analysed as part of it.',
+         'the clamps; helper functions an unpacker was split into are analysed as part of it; initialisers clean up only an '
+         'object they have wiped (R02.6).',
          ' + relational pair-invariant analysis (affine bounds) for the returned/current window'),
  'C03': ('Search loops that run until a sentinel changes have no iteration that leaves the state unchanged (R03.2: K4 '
          'refinement of the exit conditions in the stuck state), and every libvorbis function vorbisfile hands a vorbis_info to '
-         'tolerates a cleared one (R03.5: K4 with codec_setup == NULL on entry).',
+         'tolerates a cleared one (R03.5: K4 with codec_setup == NULL on entry); a NULL a library function can return is tested '
+         'before it is dereferenced (R03.6).',
          ' + stuck-state analysis of sentinel loops + null-entry analysis of the info accessors'),
  'C05': ('The managed-bitrate path hands out one of the PACKETBLOBS encodings (R05.6), residue entry numbers are mixed-radix '
          'numbers with digits below the radix (R05.7), and submap bundles pair each slot with one channel identically in '
@@ -141,7 +143,8 @@ ADDENDA = {
          '(R07.8); events performed inside helper functions count (a helper that must restart the decoder, may move the stream).',
          ''),
  'C08': ('The sample-discard loop of a sample-accurate seek makes progress: the remaining distance is at least one output '
-         'sample whenever its body runs, at full and at half rate (R08.8).', ' + K4 progress obligation on the discard loop'),
+         'sample whenever its body runs, at full and at half rate (R08.8); page properties kept in flags are recomputed for '
+         'every page submitted (R08.9).', ' + K4 progress obligation on the discard loop'),
  'C09': ('Block-overlap sums skip the first packet at every site (R09.6) and the downward search over the links ends on a link '
          'wherever its variable subscripts a per-link table (R09.7: K4, with the lemma that the remaining total is 0 at link 0).',
          ' + K4 range obligations on link searches'),
@@ -152,10 +155,12 @@ ADDENDA = {
  'C12': ('A lazy-initialisation gate is never left set by a failed initialisation (R12.8: the decode book table), buffered '
          'input is dropped only with the offset re-defined (R12.7).', ' + gate-reset path rule over helpers and their callers'),
  'C13': ('Counts cover the elements filled (R13.8), arrays of owners are released element-wise (R13.9), live elements are not '
-         're-initialised (R13.10); a file-local helper may leave a freed pointer to callers that wipe the container.', ''),
+         're-initialised (R13.10); the info a live decoder refers to is not cleared under it (R13.11, typestate); a file-local '
+         'helper may leave a freed pointer to callers that wipe the container.', ''),
  'C15': ('Fixed-extent indexing in the psychoacoustic and vorbisenc set-up code is proven by K4 with floating intervals '
          '(R15.5); every value vorbis_encode_ctl copies from the caller into a range-constrained set-up field is inside its '
-         'range at the store or clamped before the return (R15.6).', ' + K4 interval analysis (integer and floating) of set-up code'),
+         'range at the store or clamped before the return (R15.6, NaN cases listed as assumptions); a refused control request '
+         'has stored nothing (R15.7).', ' + K4 interval analysis (integer and floating) of set-up code'),
  'C16': ('Comment strings are allocated length+1 and filled exactly (R16.2); vorbis_comment_add grows both arrays alike and '
          'keeps the terminator inside the allocation (R16.5).', ''),
  'C17': ('The channel count used for interleaving is the decoded link\'s and is not stale across the packet fetch (R17.5, R17.6).', ''),
